@@ -48,6 +48,15 @@ CLAIMS["C05"] = dict(engine="E1", technique="CrossHair symbolic execution (z3 st
          "non-determinism and are confirmed by a scripted concrete history.",
     ref="DESIGN.md §4 C05")
 
+CLAIMS["C02"] = dict(engine="E1+E2", technique="CrossHair symbolic execution (z3) of the real JWE decryption code with opaque codecs, fake native keys and solver-chosen unwrap/AEAD verdicts; pysym/z3 for the CBC-HMAC MAC-input/key-split/tag-compare kernel and the IV size gate",
+    text="For every key-management mode in the bound, both content-encryption classes, every IV/tag/CEK length class, presence of the "
+         "encrypted key, zip, AAD, epk validity, 1..2 recipients and every combination of primitive verdicts, each path of "
+         "decrypt_compact/decrypt_json returns only if the AEAD was asked once, answered valid, about AAD = the received protected "
+         "segment [.aad], the decoded IV of the right size and the whole tag, under the CEK recovered from this token (same for all "
+         "recipients, right length). Counterexamples become real tokens minted by an independent RFC 7516 implementation, tampered as "
+         "the model says (incl. a re-spelt header twin) and are judged by that implementation.",
+    ref="DESIGN.md §4 C02")
+
 PENDING = {}
 
 
